@@ -156,6 +156,39 @@ def fibre_quadform(term, c):
     return tot
 
 
+def apply_history(rng, tl):
+    """penalties belong to the CURRENT configuration of a term: build them once (so that anything the implementation
+    might keep from that build exists), then change settings through the public attributes — cyclic -> plain basis
+    (which changes what 'auto' means), 'periodic' -> 'derivative', new lam values, another penalty kind in one slot —
+    and let the caller compare the penalties of the resulting configuration.  Returns a description of the edits."""
+    edits = []
+    tl.build_penalties()
+    for t in tl:
+        t.build_penalties()
+    for t in tl:
+        if t.isintercept:
+            continue
+        for s_ in (t._terms if t.istensor else [t]):
+            s_.build_penalties()
+            pens = list(s_.penalties)
+            if s_._name == 'spline_term' and s_.basis == 'cp':
+                s_.basis = 'ps'
+                edits.append('cp->ps')
+            if 'periodic' in pens:
+                pens = ['derivative' if p_ == 'periodic' else p_ for p_ in pens]
+                edits.append('periodic->derivative')
+            if rng.random() < 0.4:
+                j = rng.randrange(len(pens))
+                pens[j] = rng.choice(['auto', 'derivative', 'l2', None])
+                edits.append('penalty-kind')
+            s_.penalties = pens
+            if rng.random() < 0.6:
+                s_.lam = [rng.choice([0.0, 0.25, 1.0, 3.0, 50.0]) for _ in np.atleast_1d(s_.lam)]
+                edits.append('lam')
+            s_._validate_arguments()
+    return edits
+
+
 def run_terms(ctx):
     pygam = common.import_pygam()
     import scipy.linalg
@@ -164,7 +197,7 @@ def run_terms(ctx):
     st_or = 'pen.oracle'
     ctx.stream(st, 'TermList.build_penalties() vs model penaltyAll (exact rationals; programs without the periodic penalty)')
     ctx.stream(st_t, 'term.build_penalties() vs model Term.penalty')
-    ctx.stream(st_or, 'term penalty = sum lam_j * penalty_j; tensor = Kronecker lifts = fibre roughness; list = block diagonal with zero intercept block (NumPy, real code only)')
+    ctx.stream(st_or, 'fresh terms and terms whose settings were edited after an earlier build: term penalty = sum lam_j * penalty_j; tensor = Kronecker lifts = fibre roughness; list = block diagonal with zero intercept block (NumPy, real code only)')
     nprog = 40 if ctx.tier == 'quick' else 300
     progs = []
     k = 0
@@ -176,6 +209,18 @@ def run_terms(ctx):
         except ValueError as e:
             ctx.count('generator-rejected', str(e)[:40])
             continue
+        if k % 2 == 0:
+            # history: the penalties compared below are those of the configuration reached AFTER these edits
+            try:
+                edits = apply_history(rng, pr.terms)
+            except ValueError as e:
+                ctx.count('history rejected', str(e)[:40])
+                continue
+            pr.tokens = termgen.encode_terms(pr.terms)
+            for e_ in edits or ['none']:
+                ctx.count('history edit before the compared build', e_)
+        else:
+            ctx.count('history edit before the compared build', 'no history (fresh terms)')
         progs.append(pr)
     ops, meta = [], []
     for pr in progs:
